@@ -742,12 +742,15 @@ fn observe_checks(entry: &Path, case_dir: &Path, names: &[String], spans: &[Vec<
         "not-asked".to_string()
     } else { match jubako::reader::Container::new(entry) {
         Ok(c) => {
-            let open_now = std::fs::read_dir("/proc/self/fd").map(|d| d.count() as u64).unwrap_or(64);
+            // RLIMIT_NOFILE bounds descriptor *numbers*: the limit is put at the lowest number
+            // that is free right now, so that no new descriptor can be had whatever holes the
+            // history of this process left above it
+            let lowest_free = (3..4096).find(|n| unsafe { libc::fcntl(*n, libc::F_GETFD) } == -1).unwrap_or(4096) as u64;
             let r = unsafe {
                 let mut old: libc::rlimit = std::mem::zeroed();
                 libc::getrlimit(libc::RLIMIT_NOFILE, &mut old);
                 let new = libc::rlimit {
-                    rlim_cur: open_now.saturating_sub(1).max(3),
+                    rlim_cur: lowest_free,
                     rlim_max: old.rlim_max,
                 };
                 libc::setrlimit(libc::RLIMIT_NOFILE, &new);
@@ -797,7 +800,10 @@ fn observe_checks(entry: &Path, case_dir: &Path, names: &[String], spans: &[Vec<
             pack_checks.insert(format!("{}#{}", names[fi], si), r);
         }
     }
-    json!({"container": container, "container_after_use": container_used, "container_without_descriptors": container_no_fd, "files": file_checks, "packs": pack_checks})
+    // (whether a descriptor number below the limit happens to be free depends on when background
+    // threads of earlier containers close theirs: judged like the others, but kept out of the
+    // deterministic record - `timing_dependent` keys are dropped before a record is digested)
+    json!({"container": container, "container_after_use": container_used, "timing_dependent": {"container_without_descriptors": container_no_fd}, "files": file_checks, "packs": pack_checks})
 }
 
 fn fault_hits_manifest_slot(fault: &Fault, spans: &[Vec<PackSpan>]) -> bool {
@@ -1213,7 +1219,7 @@ fn c04_violation(rec: &Value, exempt: bool) -> Option<String> {
     if obs["container"] == "true" {
         trues.push("Container::check".to_string());
     }
-    if obs["container_without_descriptors"] == "true" {
+    if obs["timing_dependent"]["container_without_descriptors"] == "true" {
         trues.push("Container::check(no file descriptor left: pack files cannot be opened)".to_string());
     }
     if obs["container_after_use"] == "true" {
@@ -1478,7 +1484,9 @@ pub fn parent_main(args: &Args, mode: Mode) -> ! {
             }
         }
         // merge in (image index, case index) order so that the result does not depend on n
-        let mut recs: Vec<Value> = Vec::new();
+        // (kept as the text the workers printed, parsed one at a time below: millions of parsed
+        // records at once cost tens of gigabytes in the thorough tier)
+        let mut recs: Vec<(u64, u64, String)> = Vec::new();
         for o in outs {
             for line in o.lines {
                 let Ok(v) = serde_json::from_str::<Value>(&line) else {
@@ -1499,13 +1507,17 @@ pub fn parent_main(args: &Args, mode: Mode) -> ! {
                 } else if v["t"] == "image" {
                     images_seen.entry(v["image"].as_str().unwrap().to_string()).or_insert(v);
                 } else if v["t"] == "case" {
-                    recs.push(v);
+                    recs.push((v["ii"].as_u64().unwrap_or(0), v["i"].as_u64().unwrap_or(0), line));
                 }
             }
         }
-        recs.sort_by_key(|r| (r["ii"].as_u64().unwrap_or(0), r["i"].as_u64().unwrap_or(0)));
-        digests.push(report::digest_records(recs.iter()));
-        for mut rec in recs {
+        recs.sort_by_key(|r| (r.0, r.1));
+        digests.push(report::digest_record_lines(recs.iter().map(|r| r.2.as_str())));
+        if let Ok(f) = std::env::var("VERIF_DUMP_RECORDS") {
+            // (debugging aid for the determinism self-test: the ordered records of this run)
+            let _ = std::fs::write(format!("{f}.{profile}"), recs.iter().map(|r| r.2.as_str()).collect::<Vec<_>>().join("\n"));
+        }
+        for mut rec in recs.into_iter().map(|(_, _, line)| serde_json::from_str::<Value>(&line).expect("record parsed before")) {
             ev.evaluations += 1;
             let kind = rec["kind"].as_str().unwrap_or("?").to_string();
             let fired = rec["payload"]["fired"].as_bool().unwrap_or(true);
